@@ -259,6 +259,85 @@ func init() {
 
 // ---- gocache (explorer deduplicator): ghost set of keys that were Set; Get may miss a key
 // that was set (eviction) but never reports a key that was never set ----
+// sync.Mutex / sync.RWMutex that are fields of a struct: a ghost hold counter per (owner,
+// field). Lock/RLock increment it, Unlock/RUnlock decrement it (unlocking a mutex that is not
+// held is a runtime panic: safety obligation); every unit must leave each counter as it found
+// it (obligation lock-balance at exit). Blocking on a held mutex is not modelled.
+func (fr *Frame) mutexKey(st *State, c *ast.CallExpr) (string, Val, bool) {
+	se, ok := ast.Unparen(c.Fun).(*ast.SelectorExpr)
+	if !ok {
+		return "", Val{}, false
+	}
+	fs, ok := ast.Unparen(se.X).(*ast.SelectorExpr)
+	if !ok {
+		return "", Val{}, false
+	}
+	sel := fr.info.Selections[fs]
+	if sel == nil || sel.Kind() != types.FieldVal {
+		return "", Val{}, false
+	}
+	ot := fr.typeOf(fs.X)
+	if ot == nil {
+		return "", Val{}, false
+	}
+	base, isPtr := derefType(ot)
+	if !isPtr {
+		return "", Val{}, false
+	}
+	owner := fr.expr(st, fs.X)
+	key := "mutex:" + shortPkg(types.TypeString(base, nil)) + "." + fs.Sel.Name
+	fr.x.u.regHeap(key, "(Array Int Int)")
+	return key, owner, true
+}
+
+func init() {
+	lock := func(delta int, check bool) libHandler {
+		return func(fr *Frame, st *State, c *ast.CallExpr, fn *types.Func) []Val {
+			x := fr.x
+			key, owner, ok := fr.mutexKey(st, c)
+			if !ok {
+				fr.recvOf(st, c)
+				return nil
+			}
+			x.used("sync.Mutex/RWMutex fields: ghost hold counter per (owner, field); every unit leaves it as it found it; blocking is not modelled")
+			cur := "(select " + x.getHeap(st, key) + " " + owner.T + ")"
+			if check {
+				fr.safety(st, "unlock-of-unlocked-mutex", fr.src(c), c, "(> "+cur+" 0)")
+			}
+			x.heapStore(st, key, owner.T, fmt.Sprintf("(+ %s %d)", cur, delta))
+			if x.mutexKeys == nil {
+				x.mutexKeys = map[string]bool{}
+			}
+			x.mutexKeys[key] = true
+			return nil
+		}
+	}
+	for _, t := range []string{"(*sync.Mutex)", "(*sync.RWMutex)"} {
+		libHandlers[t+".Lock"] = lock(1, false)
+		libHandlers[t+".Unlock"] = lock(-1, true)
+	}
+	libHandlers["(*sync.RWMutex).RLock"] = lock(1, false)
+	libHandlers["(*sync.RWMutex).RUnlock"] = lock(-1, true)
+	mm := func(fr *Frame, c *ast.CallExpr, ms *modSet, markLhs func(ast.Expr)) {
+		se, ok := ast.Unparen(c.Fun).(*ast.SelectorExpr)
+		if !ok {
+			return
+		}
+		if fs, ok := ast.Unparen(se.X).(*ast.SelectorExpr); ok {
+			if ot := fr.typeOf(fs.X); ot != nil {
+				if base, isPtr := derefType(ot); isPtr {
+					key := "mutex:" + shortPkg(types.TypeString(base, nil)) + "." + fs.Sel.Name
+					fr.x.u.regHeap(key, "(Array Int Int)")
+					ms.heapKeys[key] = true
+				}
+			}
+		}
+	}
+	for _, n := range []string{"(*sync.Mutex).Lock", "(*sync.Mutex).Unlock", "(*sync.RWMutex).Lock", "(*sync.RWMutex).Unlock", "(*sync.RWMutex).RLock", "(*sync.RWMutex).RUnlock"} {
+		libMods[n] = mm
+	}
+}
+
 func init() {
 	// sync/atomic.Bool: one Bool cell per object (sequentially consistent; interleavings with
 	// other goroutines are not modelled)
